@@ -55,6 +55,8 @@ C19 = [
  ("S17-listing-extra-day", "violation", [(MAIN, "    for pts_for_date in pts_by_date {\n        let hijri_date = HijriDate::from(*pts_for_date.0);", "    let extra = pts_by_date.iter().next_back().map(|(d, v)| (d.succ_opt().unwrap(), v.clone()));\n    let mut all = pts_by_date.clone();\n    if let Some((d, v)) = extra {\n        all.insert(d, v);\n    }\n    for pts_for_date in &all {\n        let hijri_date = HijriDate::from(*pts_for_date.0);")], "terminal listing shows one day more than the range"),
  ("T5-listing-cosmetics", "held", [(MAIN, "    for pts_for_date in pts_by_date {\n        let hijri_date = HijriDate::from(*pts_for_date.0);\n        println!(\n            \"\\n{} ({})\",", "    println!(\"Prayer times\\n============\");\n    for pts_for_date in pts_by_date {\n        let hijri_date = HijriDate::from(*pts_for_date.0);\n        println!(\n            \"\\n-- {} [{}] --\","), (MAIN, "                println!(\"  {}: {}\", pts.0, pts.1.unwrap());", "                println!(\"    {:<8} -> {}\", pts.0.to_string(), pts.1.unwrap());")], "negative control: title line, other punctuation and alignment in the listing"),
  ("T6-invalid-as-dashes", "held", [(MAIN, "                println!(\"  {}: Invalid\", pts.0);", "                println!(\"  {}: --\", pts.0);")], "negative control: a non-existent time rendered as dashes instead of the word Invalid"),
+ ("S18-gmt-lower-bound-exclusive", "violation", [(COORD, "impl TryFrom<f64> for Gmt {\n    type Error = OutOfRangeError<f64>;\n\n    fn try_from(value: f64) -> Result<Self, Self::Error> {\n        <Self as Bounded<f64>>::try_from(value)\n    }", "impl TryFrom<f64> for Gmt {\n    type Error = OutOfRangeError<f64>;\n\n    fn try_from(value: f64) -> Result<Self, Self::Error> {\n        if value <= -12.0 {\n            return Err(OutOfRangeError(<Self as Bounded<f64>>::range()));\n        }\n        <Self as Bounded<f64>>::try_from(value)\n    }")], "GMT offset -12 (a valid bound) rejected"),
+ ("S20-exponent-notation-rejected", "violation", [("src/lib.rs", "    fn parse(s: &str) -> std::result::Result<Self, ParseError> {\n        let value = s.parse::<T>();", "    fn parse(s: &str) -> std::result::Result<Self, ParseError> {\n        if s.contains('e') || s.starts_with('+') {\n            return Err(ParseError(format!(\"unsupported number format {s}\")));\n        }\n        let value = s.parse::<T>();")], "numbers written with an exponent or a leading plus sign (valid f64 text, accepted before) are rejected"),
  ("T1-threshold-0", "held", [(MAIN, "        365,\n", "        0,\n")], "negative control: always parallel; same output (steps flagged as multi-threaded)"),
  ("T2-pretty-params", "held", [(MAIN, "    serde_json::to_writer(file, &params_config)", "    serde_json::to_writer_pretty(file, &params_config)")], "negative control: parameter file pretty-printed; still round-trips"),
  ("T3-buffered-output", "held", [(MAIN, "    serde_json::to_writer(file, &pts_by_date).unwrap_or_else(|_| {", "    let mut file = std::io::BufWriter::new(file);\n    serde_json::to_writer(&mut file, &pts_by_date).and_then(|_| std::io::Write::flush(&mut file).map_err(serde_json::Error::io)).unwrap_or_else(|_| {")], "negative control: buffered writer with explicit flush (different syscall pattern, same bytes, errors still fatal)"),
